@@ -129,31 +129,56 @@ pub fn dump_cmd(ctx: &Context, c: &RCmd) -> String {
 }
 
 // ---------------------------------------------------------------- random valuations
-pub fn dump_valuation(ctx: &Context, rng: &mut Rng, syms: &[ExprRef]) -> String {
-    let mut bv = String::from("(bvenv");
-    let mut arr = String::from("(arrenv");
+#[derive(Clone)]
+pub enum Val {
+    BV(BitVecValue),
+    /// default value and stores (later stores win)
+    Arr(BitVecValue, Vec<(BitVecValue, BitVecValue)>),
+}
+
+pub fn gen_valuation(ctx: &Context, rng: &mut Rng, syms: &[ExprRef]) -> Vec<(ExprRef, Val)> {
+    let mut out = vec![];
     for s in syms {
-        let name = ctx.get_symbol_name(*s).unwrap().to_string();
         match s.get_type(ctx) {
-            Type::BV(w) => {
-                let v = lit_value(rng, w);
-                bv.push_str(&format!(" ({} {} {})", quote(&name), w, bv_tok(&v)));
-            }
+            Type::BV(w) => out.push((*s, Val::BV(lit_value(rng, w)))),
             Type::Array(a) => {
                 let d = lit_value(rng, a.data_width);
-                arr.push_str(&format!(" ({} {} {} {}", quote(&name), a.index_width, a.data_width, bv_tok(&d)));
+                let mut es = vec![];
                 for _ in 0..rng.below(4) {
-                    let i = lit_value(rng, a.index_width);
-                    let v = lit_value(rng, a.data_width);
-                    arr.push_str(&format!(" ({} {})", bv_tok(&i), bv_tok(&v)));
+                    es.push((lit_value(rng, a.index_width), lit_value(rng, a.data_width)));
+                }
+                out.push((*s, Val::Arr(d, es)));
+            }
+        }
+    }
+    out
+}
+
+pub fn dump_valuation_of(ctx: &Context, vals: &[(ExprRef, Val)]) -> String {
+    let mut bv = String::from("(bvenv");
+    let mut arr = String::from("(arrenv");
+    for (s, v) in vals {
+        let name = ctx.get_symbol_name(*s).unwrap().to_string();
+        match (s.get_type(ctx), v) {
+            (Type::BV(w), Val::BV(v)) => bv.push_str(&format!(" ({} {} {})", quote(&name), w, bv_tok(v))),
+            (Type::Array(a), Val::Arr(d, es)) => {
+                arr.push_str(&format!(" ({} {} {} {}", quote(&name), a.index_width, a.data_width, bv_tok(d)));
+                for (i, v) in es {
+                    arr.push_str(&format!(" ({} {})", bv_tok(i), bv_tok(v)));
                 }
                 arr.push(')');
             }
+            _ => {}
         }
     }
     bv.push(')');
     arr.push(')');
     format!("(step {bv} {arr})")
+}
+
+pub fn dump_valuation(ctx: &Context, rng: &mut Rng, syms: &[ExprRef]) -> String {
+    let v = gen_valuation(ctx, rng, syms);
+    dump_valuation_of(ctx, &v)
 }
 
 // ---------------------------------------------------------------- the case
@@ -223,6 +248,13 @@ fn real_ctx_run(ctx: &mut Context, sys: &TransitionSystem, entry: u64, unrolls: 
 /// marker and (reset).  z3 keeps going after an error; cvc5 stops at the first error and is
 /// restarted behind the failing script.  Returns "ok" | first error message, per script.
 pub fn batch_solver(solver: &str, args: &[&str], scripts: &[String]) -> Vec<String> {
+    batch_solver_x(solver, args, scripts, None).0
+}
+
+/// `extras[k]` is inserted between script k and its final (check-sat); everything the solver prints for a
+/// script that is neither sat/unsat nor an error (get-value answers) is returned as second component
+pub fn batch_solver_x(solver: &str, args: &[&str], scripts: &[String], extras: Option<&[String]>) -> (Vec<String>, Vec<String>) {
+    let mut other: Vec<String> = vec![String::new(); scripts.len()];
     let mut out: Vec<String> = vec![String::new(); scripts.len()];
     let mut from = 0usize;
     let mut launches = 0;
@@ -233,6 +265,9 @@ pub fn batch_solver(solver: &str, args: &[&str], scripts: &[String]) -> Vec<Stri
         for (k, s) in scripts.iter().enumerate().skip(from) {
             txt.push_str("(set-logic ALL)\n");
             txt.push_str(s);
+            if let Some(x) = extras {
+                txt.push_str(&x[k]);
+            }
             txt.push_str(&format!("(check-sat)\n(echo \"case-{k}\")\n(reset)\n"));
         }
         std::fs::write(&path, txt).expect("batch file");
@@ -244,7 +279,7 @@ pub fn batch_solver(solver: &str, args: &[&str], scripts: &[String]) -> Vec<Stri
                 for k in from..scripts.len() {
                     out[k] = format!("cannot run {solver}: {e}");
                 }
-                return out;
+                return (out, other);
             }
         };
         let text = format!("{}{}", String::from_utf8_lossy(&o.stdout), String::from_utf8_lossy(&o.stderr));
@@ -265,6 +300,13 @@ pub fn batch_solver(solver: &str, args: &[&str], scripts: &[String]) -> Vec<Stri
                 sat_seen = false;
             } else if l == "sat" {
                 sat_seen = true;
+            } else if l == "unsat" {
+                if cur < other.len() {
+                    other[cur].push_str(" UNSAT ");
+                }
+            } else if extras.is_some() && !l.contains("(error") && err.is_none() && cur < other.len() {
+                other[cur].push_str(line);
+                other[cur].push(' ');
             } else if l.contains("(error") && err.is_none() {
                 err = Some(l.to_string());
             } else if err.as_deref().map(|e| e.ends_with("Parse Error:") || e.len() < 40).unwrap_or(false) && !l.is_empty() {
@@ -283,6 +325,44 @@ pub fn batch_solver(solver: &str, args: &[&str], scripts: &[String]) -> Vec<Stri
             break;
         }
     }
+    (out, other)
+}
+
+/// z3's answer to (get-value (..)) as `(textvals (v "name" bits)..)`; Bool -> one bit
+pub fn render_textvals(answer: &str) -> String {
+    let a = answer.trim();
+    if a.is_empty() {
+        return "(textvals none)".to_string();
+    }
+    if a.contains("UNSAT") {
+        return "(textvals unsat)".to_string();
+    }
+    let Ok(sx) = Sexp::parse(a) else { return format!("(textvals unparsed {})", quote(&a.chars().take(200).collect::<String>())) };
+    let mut out = String::from("(textvals");
+    if let Sexp::List(pairs) = sx {
+        for p in pairs {
+            if let Sexp::List(l) = p {
+                if l.len() == 2 {
+                    if let (Sexp::Atom(n), Sexp::Atom(v)) = (&l[0], &l[1]) {
+                        let name = n.trim_matches('|');
+                        let bits = if v == "true" {
+                            "1".to_string()
+                        } else if v == "false" {
+                            "0".to_string()
+                        } else if let Some(b) = v.strip_prefix("#b") {
+                            b.to_string()
+                        } else if let Some(h) = v.strip_prefix("#x") {
+                            h.chars().map(|c| format!("{:04b}", c.to_digit(16).unwrap_or(0))).collect()
+                        } else {
+                            continue;
+                        };
+                        out.push_str(&format!(" (v {} b{})", quote(name), bits));
+                    }
+                }
+            }
+        }
+    }
+    out.push(')');
     out
 }
 
@@ -291,6 +371,8 @@ pub struct Pending {
     head: String,
     tail: String,
     smt: String,
+    /// `(push) (assert pinned declared constants) (check-sat) (get-value (step symbols)) (pop)`, or empty
+    smt_vals: String,
     /// verdict of the real SmtLibSolverCtx path, when it was taken
     real: Option<(String, bool)>,
 }
@@ -328,6 +410,9 @@ pub fn run_case(id: &str, inp: Input, rng: &mut Rng, stats: &mut Stats, real_pat
     let mut signals = String::from("(signals");
     let mut n_cmds = 0u64;
     let mut smt = String::new();
+    // declared step symbols with the system symbol and relative step they stand for; watched step symbols
+    let mut pins: Vec<(ExprRef, ExprRef, u64)> = vec![];
+    let mut watch: Vec<ExprRef> = vec![];
     let res = guarded(|| {
         let mut rec = Recorder::new(true);
         let mut enc = UnrollSmtEncoding::new(&mut ctx, &sys, false);
@@ -352,9 +437,21 @@ pub fn run_case(id: &str, inp: Input, rng: &mut Rng, stats: &mut Stats, real_pat
                 blocks.push(')');
             }
             smt = smt_text(&ctx, &out_blocks);
+            let declared: std::collections::HashSet<ExprRef> =
+                out_blocks.iter().flatten().filter_map(|c| if let RCmd::Declare(s) = c { Some(*s) } else { None }).collect();
             for k in entry..=entry + unrolls {
                 for e in observed.iter() {
                     let r = guarded(|| enc.get_signal_at(&ctx, *e, k));
+                    if let Ok(sym) = &r {
+                        if ctx[*sym].is_symbol() {
+                            if declared.contains(sym) && ctx[*e].is_symbol() && !pins.iter().any(|(s, _, _)| s == sym) {
+                                pins.push((*sym, *e, k - entry));
+                            }
+                            if sym.get_bv_type(&ctx).is_some() && !watch.contains(sym) {
+                                watch.push(*sym);
+                            }
+                        }
+                    }
                     let txt = match r {
                         Ok(s) => dump_expr(&ctx, s),
                         Err(_) => "(panic)".to_string(),
@@ -377,18 +474,58 @@ pub fn run_case(id: &str, inp: Input, rng: &mut Rng, stats: &mut Stats, real_pat
     } else {
         None
     };
+    let mut smt_vals = String::new();
     let execs = match execs {
         Some(e) => e,
         None => {
             let syms: Vec<ExprRef> = sys.states.iter().map(|s| s.symbol).chain(sys.inputs.iter().copied()).collect();
             let mut s = String::from("(execs");
-            for _ in 0..3 {
+            for x in 0..3 {
                 s.push_str(" (exec");
+                let mut steps: Vec<Vec<(ExprRef, Val)>> = vec![];
                 for _ in 0..=unrolls {
+                    let v = gen_valuation(&ctx, rng, &syms);
                     s.push(' ');
-                    s.push_str(&dump_valuation(&ctx, rng, &syms));
+                    s.push_str(&dump_valuation_of(&ctx, &v));
+                    steps.push(v);
                 }
                 s.push(')');
+                if x == 0 && !watch.is_empty() && !smt.is_empty() {
+                    // the REAL text, evaluated by z3 on this run: pin the declared constants, ask for the step symbols
+                    let mut buf: Vec<u8> = b"(push 1)\n".to_vec();
+                    for (sym, e, k) in pins.iter() {
+                        let Some((_, val)) = steps[*k as usize].iter().find(|(x, _)| x == e) else { continue };
+                        let rhs = match val {
+                            Val::BV(v) => ctx.bv_lit(v),
+                            Val::Arr(d, es) => {
+                                let iw = e.get_array_type(&ctx).unwrap().index_width;
+                                let dl = ctx.bv_lit(d);
+                                let mut a = ctx.array_const(dl, iw);
+                                for (i, v) in es {
+                                    let il = ctx.bv_lit(i);
+                                    let vl = ctx.bv_lit(v);
+                                    a = ctx.array_store(a, il, vl);
+                                }
+                                a
+                            }
+                        };
+                        let eq = ctx.equal(*sym, rhs);
+                        serialize_cmd(&mut buf, Some(&ctx), &SmtCommand::Assert(eq)).expect("serialize");
+                    }
+                    buf.extend_from_slice(b"(check-sat)\n(get-value (");
+                    for w in watch.iter() {
+                        let mut one: Vec<u8> = vec![];
+                        // a symbol is serialized the way the script serializes it: through get-value's own printer
+                        serialize_cmd(&mut one, Some(&ctx), &SmtCommand::GetValue(*w)).expect("serialize");
+                        // "(get-value (NAME))\n" -> NAME
+                        let t = String::from_utf8_lossy(&one).into_owned();
+                        let name = t.trim().trim_start_matches("(get-value (").trim_end_matches("))").to_string();
+                        buf.extend_from_slice(name.as_bytes());
+                        buf.push(b' ');
+                    }
+                    buf.extend_from_slice(b"))\n(pop 1)\n");
+                    smt_vals = String::from_utf8_lossy(&buf).into_owned();
+                }
             }
             s.push(')');
             s
@@ -403,6 +540,7 @@ pub fn run_case(id: &str, inp: Input, rng: &mut Rng, stats: &mut Stats, real_pat
         head: format!("(case {id} {sys_txt} {named} {names} (entry {entry}) (unrolls {unrolls}) {order} {blocks} {signals}"),
         tail: format!("{execs} (implerr {}))", quote(&implerr)),
         smt,
+        smt_vals,
         real,
     }
 }
@@ -410,7 +548,8 @@ pub fn run_case(id: &str, inp: Input, rng: &mut Rng, stats: &mut Stats, real_pat
 /// run the solvers over all pending cases and render the case lines
 pub fn finish(pending: Vec<Pending>, stats: &mut Stats) -> Vec<String> {
     let scripts: Vec<String> = pending.iter().map(|p| p.smt.clone()).collect();
-    let z3 = batch_solver("z3", &[], &scripts);
+    let extras: Vec<String> = pending.iter().map(|p| p.smt_vals.clone()).collect();
+    let (z3, z3_other) = batch_solver_x("z3", &[], &scripts, Some(&extras));
     let cvc5 = batch_solver("cvc5", &["--incremental", "--produce-models"], &scripts);
     let mut lines = vec![];
     for (k, p) in pending.iter().enumerate() {
@@ -424,7 +563,11 @@ pub fn finish(pending: Vec<Pending>, stats: &mut Stats) -> Vec<String> {
             None => "(real skipped)".to_string(),
             Some((v, same)) => format!("(real {} {})", quote(v), if *same { "replay-file-same" } else { "replay-file-differs" }),
         };
-        lines.push(format!("{} (z3 {}) (cvc5 {}) {} {}", p.head, quote(&z3[k]), quote(&cvc5[k]), real, p.tail));
+        let textvals = if p.smt_vals.is_empty() { "(textvals none)".to_string() } else { render_textvals(&z3_other[k]) };
+        if textvals.starts_with("(textvals (v") {
+            stats.inc("runs_evaluated_on_the_smt_text_by_z3");
+        }
+        lines.push(format!("{} (z3 {}) (cvc5 {}) {} {} {}", p.head, quote(&z3[k]), quote(&cvc5[k]), real, textvals, p.tail));
     }
     lines
 }
